@@ -138,8 +138,7 @@ func (c *compiler) evaluateAssertions() error {
 		if line.typ != lineComment {
 			continue
 		}
-		if strings.HasPrefix(line.comment, ";assert") {
-			assertText := line.comment[7:]
+		if assertText, ok := commentKeyword(line.comment, ";assert"); ok {
 			err := c.evaluateAssertion(assertText)
 			if err != nil {
 				return err
